@@ -378,6 +378,11 @@ def check_property(pid, tier, seed, replay=None):
             extract_tables.main()
         except Exception as e:  # fail closed
             broken.append("extractor tools/extract_tables.py: %s" % e)
+    for mod in cfgp.get("extractors", []):  # property-specific translators (tools/<mod>.py, `main()`), fail closed
+        try:
+            __import__(mod).main()
+        except Exception as e:
+            broken.append("extractor tools/%s.py: %s" % (mod, e))
 
     # 2. Lean: model driver + property theorems
     rc, out = lake_build(["md_" + pid])
